@@ -265,6 +265,17 @@ pub fn panic_site(desc: &str) -> String {
     }
 }
 
+/// Stable tag of a panic message: its text up to the first digit / parenthesis / quote.
+pub fn panic_kind(desc: &str) -> String {
+    let msg = match desc.rfind(" @ ") {
+        Some(i) => &desc[..i],
+        None => desc,
+    };
+    let cut = msg.find(|c: char| c.is_ascii_digit() || c == '(' || c == '\'' || c == '"' || c == '`').unwrap_or(msg.len());
+    let t: String = msg[..cut].trim().chars().take(48).collect();
+    t.replace(' ', "-")
+}
+
 // ---------------------------------------------------------------------------
 // resolve-step budget (uses the verif-hooks observer)
 
